@@ -146,8 +146,29 @@ fn probe_fresh(run: &mut Run, is_client: bool, state: &str, pkt: &[u8]) {
     run_inject(run, &mut s, state, 0, &[22, 254, 253, 0, 0], true);   // liveness probe: a short record must still be taken
 }
 
+/// 65 536 in-order handshake messages the state machine ignores (HelloRequest, empty body): drives the 16-bit
+/// `recv_message_seq` counter of `process_handshake_payload` to its limit on an unauthenticated, pre-handshake endpoint
+fn seq_flood(run: &mut Run, is_client: bool) {
+    use rustrtc::transports::dtls::handshake::HandshakeType as T;
+    let st = if is_client { "flood-client" } else { "flood-server" };
+    let mut s = Session::new(false, is_client, usize::MAX);
+    s.step(1);
+    let mut seq: u32 = 0;
+    let mut rec = 0u64;
+    while seq < 65_536 + 200 {
+        let msgs: Vec<(T, u16, Vec<u8>)> = (0..100).map(|i| (T::HelloRequest, (seq + i) as u16, vec![])).collect();
+        seq += 100;
+        let d = super::dtls::handshake_record(&msgs, rec); rec += 1;
+        run_inject(run, &mut s, st, 0, &d, true);
+        if run.fails.iter().any(|f| f.case.starts_with(&format!("dtlslive {st}"))) { break; }
+    }
+    run.count(&format!("dtlslive:end_state:{st}:{}", s.state_text()));
+}
+
 pub fn special(run: &mut Run, rng: &mut Rng, thorough: bool) {
     let per = if thorough { 3_000 } else { 150 };
+    seq_flood(run, false);
+    seq_flood(run, true);
     {
         use rustrtc::transports::dtls::handshake::HandshakeType as T;
         for _ in 0..(if thorough { 2_000 } else { 120 }) {
@@ -206,6 +227,8 @@ pub fn replay_special(run: &mut Run, stream: &str, a: &[&str]) -> bool {
     if stream != "dtlslive" || a.len() != 3 { return false; }
     let state = a[0]; let i: usize = a[1].parse().unwrap_or(0);
     let mut s = match state {
+        "flood-server" | "flood-client" => { let mut r2 = Run::new("c07", "/tmp/c07-replay-flood"); seq_flood(&mut r2, state == "flood-client");
+            for f in &r2.fails { run.fails.push(f.clone()); } let _ = std::fs::remove_dir_all("/tmp/c07-replay-flood"); return true; }
         "pre-server" | "fresh-server" => { let s = Session::new(false, false, usize::MAX); s.step(1); s }
         "pre-client" | "fresh-client" => { let s = Session::new(false, true, usize::MAX); s.step(1); s }
         st if st.starts_with("mid") => { let s = Session::new(true, false, st[3..].parse().unwrap_or(1)); s.step(30); s }
